@@ -203,6 +203,40 @@ def _stream_closes(func, cfg, open_ev):
     return closes
 
 
+def _in_cleanup(func, node):
+    """`node` lies lexically inside a `finally:` body or an exception handler."""
+    for t in ast.walk(func.node):
+        if isinstance(t, ast.Try):
+            for blk in [t.finalbody] + [h.body for h in t.handlers]:
+                for st in blk:
+                    if any(x is node for x in ast.walk(st)):
+                        return True
+    return False
+
+
+def rule_T2_publish(ctx, rid='T2'):
+    """The part of T2 that the row/statistics properties depend on across a resume: a checkpoint
+    update is published only when it ran to completion."""
+    ctx.rule(rid, 'a checkpoint update is published (renamed onto the live path) only when every '
+             'statement of the update has completed')
+    n = 0
+    for func in ctx.program.functions.values():
+        cfg, events = _file_events(func)
+        for r in [e for e in events if e['kind'] == 'rename' and e['atomic'] and
+                  e['src'][0] == TEMP and e['dst'][0] == LIVE]:
+            ok = not _in_cleanup(func, r['call'])
+            n += 1
+            ctx.ob(rid, '%s:publish-only-on-success' % func.qualname, ok, r['where'],
+                   'the rename onto the live path is only executed when every statement of the '
+                   'update has completed' if ok else
+                   'the rename onto the live path sits in a `finally:` / `except` block: when the '
+                   'update raises half way the half-updated copy still replaces the last '
+                   'complete checkpoint; a run resumed from it holds counts, rows, likelihoods '
+                   'and blobs of different batches')
+    ctx.require(n >= 2, 'T2: atomic renames of the checkpoint writers not found')
+    return n
+
+
 def rule_T2(ctx, rid='T2'):
     """Atomic-replace typestate over every function of the package that touches the
     file system for writing."""
@@ -292,6 +326,29 @@ def rule_T2(ctx, rid='T2'):
                    'a temporary file this function did not write is moved onto the live path: '
                    'the left-over of an interrupted update (possibly a half-updated copy) would '
                    'replace the last complete checkpoint')
+        # (i) the rename is reached only when the update ran to completion: it does not sit in a
+        # `finally:` block or an exception handler (an exception in the middle of the update -
+        # disk full, Ctrl-C - would otherwise publish the half-updated copy)
+        for r in renames_ok:
+            ok = not _in_cleanup(func, r['call'])
+            ctx.ob(rid, '%s:publish-only-on-success' % q, ok, r['where'],
+                   'the rename onto the live path is only executed when every statement of the '
+                   'update has completed' if ok else
+                   'the rename onto the live path sits in a `finally:` / `except` block: when the '
+                   'update raises half way (new attributes and rows of one array written, the '
+                   'others not) the half-updated copy still replaces the last complete '
+                   'checkpoint; a run resumed from it holds counts, rows, likelihoods and blobs of '
+                   'different batches')
+        # (j) a temporary file left behind by an earlier kill must not block the next write
+        for o in wopens:
+            if o['pclass'] == TEMP:
+                ok = o['mode'] not in ('x', 'w-', 'xb', 'x+')
+                ctx.ob(rid, '%s:temp-open-tolerates-leftover' % q, ok, o['where'],
+                       'the temporary file is created with a mode that overwrites a left-over of '
+                       'an interrupted write' if ok else
+                       'the temporary file is created with exclusive mode %r: the left-over of a '
+                       'write interrupted by a kill makes every later write raise FileExistsError '
+                       '- re-running the script never gets past its next full write' % o['mode'])
         # (e) a temp opened for update must be a whole-file copy of the live file
         for o in wopens:
             if o['pclass'] == TEMP and o['mode'] in ('r+', 'a', 'r+b', 'ab', 'a+', 'rb+'):
